@@ -12,7 +12,7 @@ class CallMixin:
     BUILTINS = {'len', 'range', 'zip', 'enumerate', 'reversed', 'min', 'max', 'abs', 'sum', 'all', 'any',
                 'isinstance', 'iter', 'id', 'super', 'print', 'repr', 'hash', 'cast', 'getattr', 'hasattr', 'sorted',
                 'exit', 'map', 'frozenset', 'next', 'issubclass', 'setattr', 'delattr', 'callable', 'ghost_list', 'open',
-                'assume'}
+                'assume', 'check'}
     SPEC_FUNCS = {'old', 'forall', 'exists', 'forall_ref', 'implies', 'ite', 'eqv', 'typeis', 'isold', 'isnew', 'len', 'min', 'max',
                   'abs', 'isinstance', 'isnone', 'notnone', 'seqeq', 'iff', 'subtype', 'sizeof', 'sumof'}
 
@@ -679,6 +679,13 @@ class CallMixin:
             # explicit assumption inside ghost code: counted and listed in the evidence (never used to hide a failure)
             g = self.ev_spec(node.args[0].value if isinstance(node.args[0], ast.Constant) else ast.unparse(node.args[0]),
                              self.spec_env(fr))
+            self.assume(g)
+            return VNone()
+        if name == 'check':
+            # mid-point assertion inside ghost code: a named obligation (spec expression as a string), then available as a fact
+            text = node.args[0].value if isinstance(node.args[0], ast.Constant) else ast.unparse(node.args[0])
+            g = self.ev_spec(text, self.spec_env(fr))
+            self.oblige('assert', g, fr, node, info=text)
             self.assume(g)
             return VNone()
         if name == 'range':
